@@ -244,9 +244,9 @@ def model_ops(trace):
             t = C("OGet", grp(o), cid(o))
         elif k == "delete_offset":
             t = C("ODelete", grp(o), cid(o))
-        elif k == "dump":
+        elif k in ("dump", "get_topic"):
             t = C("ODump")
-        elif k in ("advance", "get_topic", "get_stats", "create_group"):
+        elif k in ("advance", "get_stats", "create_group"):
             continue
         else:
             raise ValueError("no model op for %s" % k)
@@ -274,6 +274,11 @@ def canon_impl(op, ob):
         return ("msgs", ob["cur"], msgs)
     if k == "get_offset":
         return ("off", ob["stored"] if ob.get("some") else None)
+    if k == "maintain":
+        return ("lo", ob["lo"])
+    if k == "get_topic":
+        p = ob["parts"][0]
+        return ("topic", ob["size"], ob["msgs"], p["size"], p["msgs"], p["segs"], p["cur"])
     if k == "dump":
         segs = []
         for s in ob["segs"]:
@@ -287,13 +292,18 @@ def canon_impl(op, ob):
     return ("res", 0)
 
 
-def canon_model(v, cfg):
+def canon_model(v, cfg, op=None):
     name = v.name
     a = v.args
+    if op is not None and op["op"] == "get_topic" and name == "ODumped":
+        cur, inc, unsaved, segs, cache, msgs, size = a
+        return ("topic", size, msgs, size, msgs, len(segs), cur)
     if name == "ORes":
         return ("res", a[0])
     if name == "OMsgs":
         return ("msgs", a[0], [tuple(m) for m in a[1]])
+    if name == "OLo":
+        return ("lo", a[0])
     if name == "OOff":
         return ("off", a[0][1] if isinstance(a[0], tuple) and a[0][0] == "Some" else None)
     if name == "ODumped":
@@ -310,6 +320,33 @@ def canon_model(v, cfg):
             c = ("empty",) if not offs else (offs[0], offs[-1], len(offs))
         return ("dump", cur, inc, unsaved, out, c, msgs, size)
     raise ValueError(name)
+
+
+def obs_term(c):
+    """canonical implementation observation -> Coq [obs] term (input of the spec monitor)."""
+    k = c[0]
+    if k == "res":
+        return C("ORes", c[1] if isinstance(c[1], int) else 99)
+    if k == "msgs":
+        return C("OMsgs", c[1], [tuple(m) for m in c[2]])
+    if k == "off":
+        return C("OOff", opt(c[1]))
+    if k == "lo":
+        return C("OLo", c[1])
+    if k == "topic":
+        _, tsize, tmsgs, psize, pmsgs, nsegs, cur = c
+        return C("ODumped", cur, True, 0, [], None, pmsgs, psize)
+    if k == "dump":
+        _, cur, inc, unsaved, segs, cache, msgs, size = c
+        st = []
+        for (start, scur, end, closed, ssize, lastpos, acc, loglen, idxlen, idx) in segs:
+            st.append((start, scur, end, bool(closed), ssize, lastpos, opt(tuple(acc)) if acc is not None else None,
+                       min(loglen, 2**63), min(idxlen, 2**63), [tuple(x) for x in (idx or [])]))
+        ch = None
+        if cache is not None:
+            ch = C("Some", [] if cache == ("empty",) else list(range(cache[0], cache[1] + 1)))
+        return C("ODumped", cur, bool(inc), unsaved, st, ch, msgs, size)
+    raise ValueError(k)
 
 
 def run_traces(tag, traces):
@@ -340,6 +377,242 @@ def run_traces(tag, traces):
             if i >= len(outs):
                 r["crash"] = "trace stopped at op %d: %s" % (len(outs) - 1, json.dumps(outs[-1]) if outs else "")
                 break
-            r["pairs"].append((i, t["ops"][i], canon_impl(t["ops"][i], outs[i]), canon_model(mv[j], t["cfg"]), outs[i]))
+            r["pairs"].append((i, t["ops"][i], canon_impl(t["ops"][i], outs[i]), canon_model(mv[j], t["cfg"], t["ops"][i]), outs[i]))
         results.append(r)
+    # spec monitor evaluated on the IMPLEMENTATION's observations, and the model run through the same monitor
+    mterms, midx = [], []
+    for n, (t, r) in enumerate(zip(traces, results)):
+        if r["crash"]:
+            continue
+        ops, _ = model_ops(t)
+        pairs = [(o, obs_term(p[2])) for o, p in zip(ops, r["pairs"])]
+        mterms.append("(mon_check %s %s, model_check %s %d %s)" % (
+            show(cfg_term(t["cfg"])), show(pairs), show(cfg_term(t["cfg"])), T0 + 1000 * SETUP_OPS, show(ops)))
+        midx.append(n)
+    mvals = coqrun.eval_terms(tag + "_mon", IMPORTS + " Model.PartSpec", mterms, shard_size=25)
+    for n, (mi, mm) in zip(midx, mvals):
+        results[n]["monitor_impl"] = mi      # 0 = accepted, k+1 = k-th model-level op rejected
+        results[n]["monitor_model"] = mm
     return results
+
+
+# ----------------------------------------------------------------------------- per-property checks
+PROFILES = {
+    "C01": [{"restart": 7, "purge": 3, "maintain": 5, "advance": 5, "expiry": True, "dedup": True, "poll_after_each": 0.5, "max_ops": 32},
+            {"restart": 5, "purge": 2, "max_size": True, "maintain": 4, "poll_after_each": 0.4, "max_ops": 28}],
+    "C02": [{"restart": 5, "purge": 1, "poll_after_each": 0.2, "max_ops": 36},
+            {"restart": 5, "purge": 1, "maintain": 5, "advance": 5, "expiry": True, "poll_after_each": 0.2, "max_ops": 36}],
+    "C03": [{"restart": 18, "purge": 2, "maintain": 4, "advance": 4, "expiry": True, "dedup": True, "poll_after_each": 0.6, "max_ops": 30, "groups": True, "offsets": 5}],
+    "C07": [{"restart": 6, "purge": 4, "groups": True, "offsets": 28, "poll_after_each": 0.1, "max_ops": 36}],
+    "C14": [{"restart": 6, "purge": 1, "maintain": 12, "advance": 12, "expiry": True, "update": 4, "poll_after_each": 0.4, "max_ops": 34}],
+    "C15": [{"restart": 4, "purge": 1, "maintain": 10, "advance": 2, "max_size": True, "update": 4, "poll_after_each": 0.3, "stats": 6, "max_ops": 34}],
+    "C16": [{"restart": 8, "purge": 4, "maintain": 6, "advance": 6, "expiry": True, "dedup": True, "stats": 14, "poll_after_each": 0.2, "max_ops": 34},
+            {"restart": 6, "purge": 3, "maintain": 6, "max_size": True, "stats": 14, "poll_after_each": 0.2, "max_ops": 30}],
+    "C18": [{"restart": 8, "purge": 1, "dedup": True, "poll_after_each": 0.5, "max_ops": 32}],
+}
+COUNTS = {"quick": 160, "thorough": 2400}
+
+
+def _send(ids, length=10, hdr=0):
+    return {"op": "send", "stream": 1, "topic": 1, "part": {"kind": "pid", "id": 1}, "msgs": [{"id": i, "len": length, "hdr": hdr} for i in ids]}
+
+
+def _poll(kind, value, count, **kw):
+    d = {"op": "poll", "stream": 1, "topic": 1, "partition": 1, "kind": kind, "value": value, "count": count}
+    d.update(kw)
+    return d
+
+
+def _mk(tid, cfg, ops):
+    base = {"req": 5, "seg_size": 1_000_000, "cache": False, "idx_cache": True, "dedup": False, "fsync": False, "delete_oldest": False}
+    base.update(cfg)
+    setup = [{"op": "create_stream", "name": "s", "id": 1},
+             {"op": "create_topic", "stream": 1, "name": "t", "parts": 1, "id": 1, "expiry": base.get("expiry"), "max_size": base.get("max_size")}]
+    tail = [_poll("offset", 0, 100000), {"op": "dump", "stream": 1, "topic": 1, "partition": 1}]
+    return {"id": tid, "cfg": base, "ops": setup + ops + tail}
+
+
+FLUSH = {"op": "flush", "stream": 1, "topic": 1, "partition": 1}
+DUMP = {"op": "dump", "stream": 1, "topic": 1, "partition": 1}
+GROUPS = [{"op": "create_group", "stream": 1, "topic": 1, "name": "g%d" % g, "id": g} for g in (1, 2, 7)]
+
+
+def corpus():
+    """Minimised witnesses of the defects repaired in /repo (see KNOWN_FINDINGS.txt); they run first in every
+    partition-family check so that a regression is reported with a small replay."""
+    seg3 = 24 + 3 * 55  # one segment = exactly one stored batch of three 10-byte messages
+    cs = []
+    for idx in (True, False):
+        cs.append(_mk("corpus-E1-idx%d" % idx, {"idx_cache": idx}, [_send(range(1, 6)), _send(range(6, 11)), _send(range(11, 14)),
+                                                                   _poll("offset", 0, 13), _poll("offset", 5, 5), _poll("offset", 8, 4)]))
+        cs.append(_mk("corpus-E9-idx%d" % idx, {"idx_cache": idx, "req": 3, "seg_size": 24 + 4 * (24 + 3 * 55) - 24},
+                      [_send(range(i, i + 3)) for i in range(1, 37, 3)] + [_poll("offset", 12, 12), _poll("offset", 10, 20), _poll("offset", 25, 6)]))
+    cs.append(_mk("corpus-E2", {"req": 100}, [_send(range(1, 11)), FLUSH, {"op": "restart"}, _send(range(11, 14)),
+                                              _poll("offset", 0, 13), _poll("offset", 9, 1), FLUSH, _poll("offset", 0, 13), {"op": "restart"}]))
+    cs.append(_mk("corpus-E3", {"req": 3, "seg_size": seg3, "expiry": 5000},
+                  [_send(range(i, i + 3)) for i in range(1, 13, 3)] + [{"op": "advance", "us": 100000}, {"op": "maintain"}, DUMP, {"op": "restart"}, DUMP,
+                                                                      _send(range(13, 16)), _poll("offset", 0, 100)]))
+    cs.append(_mk("corpus-E3b", {"req": 3, "seg_size": seg3, "expiry": 50000},
+                  [_send(range(1, 4)), _send(range(4, 7)), {"op": "advance", "us": 100000}, _send(range(7, 10)), _send(range(10, 13)), {"op": "maintain"},
+                   _poll("first", 0, 5), _poll("first", 0, 2), _poll("offset", 3, 2), _poll("offset", 3, 30), _poll("next", 0, 4, consumer={"kind": "consumer", "id": 2}),
+                   _poll("last", 0, 100)]))
+    cs.append(_mk("corpus-E16", {}, [_send(range(1, 6)), _send(range(6, 11)), FLUSH, _poll("offset", 3, 4294967295), _poll("offset", 0, 4294967295),
+                                     _poll("timestamp", T0, 4294967295), _poll("last", 0, 4294967295)]))
+    cs.append(_mk("corpus-E4", {}, GROUPS + [_send(range(1, 11)),
+                                             {"op": "store_offset", "stream": 1, "topic": 1, "partition": 1, "consumer": {"kind": "group", "id": 7}, "offset": 4},
+                                             {"op": "get_offset", "stream": 1, "topic": 1, "partition": 1, "consumer": {"kind": "group", "id": 7}},
+                                             {"op": "get_offset", "stream": 1, "topic": 1, "partition": 1, "consumer": {"kind": "consumer", "id": 7}},
+                                             {"op": "store_offset", "stream": 1, "topic": 1, "partition": 1, "consumer": {"kind": "consumer", "id": 7}, "offset": 2},
+                                             {"op": "get_offset", "stream": 1, "topic": 1, "partition": 1, "consumer": {"kind": "group", "id": 7}},
+                                             _poll("next", 0, 3, consumer={"kind": "group", "id": 7}, auto_commit=True),
+                                             {"op": "get_offset", "stream": 1, "topic": 1, "partition": 1, "consumer": {"kind": "group", "id": 7}}]))
+    for dl in (True, False):
+        cs.append(_mk("corpus-E8-del%d" % dl, {"req": 1, "seg_size": seg3, "max_size": seg3, "delete_oldest": dl},
+                      [_send([i]) for i in range(1, 9)] + [{"op": "maintain"}, _send([9]), _send([10])]))
+    cs.append(_mk("corpus-E17", {"req": 1000, "seg_size": 100_000_000, "fsync": True},
+                  [_send([1, 2, 3], 1_000_000), FLUSH, _poll("offset", 0, 10), _send([4], 100), FLUSH, _poll("offset", 0, 10), {"op": "restart"}]))
+    return cs
+
+
+def attribution(t, i, op):
+    """Which properties an anomaly at op i of trace t speaks about."""
+    before = [o["op"] for o in t["ops"][:i]]
+    k = op["op"]
+    props = set()
+    if k == "send":
+        props |= {"C01", "C15"}
+        if t["cfg"].get("dedup"):
+            props.add("C18")
+    elif k == "poll":
+        props |= {"C02", "C01", "C12"}
+        if "restart" in before:
+            props.add("C03")
+        if "maintain" in before:
+            props |= {"C14", "C15"}
+        if op["kind"] == "next" or op.get("auto_commit"):
+            props.add("C07")
+        if t["cfg"].get("dedup"):
+            props.add("C18")
+    elif k in ("store_offset", "get_offset", "delete_offset"):
+        props |= {"C07"}
+        if "restart" in before:
+            props.add("C03")
+    elif k == "maintain":
+        props |= {"C14", "C15"}
+    elif k in ("dump", "get_topic"):
+        props |= {"C16", "C01"}
+        if "restart" in before:
+            props.add("C03")
+        if "maintain" in before:
+            props |= {"C14", "C15"}
+    elif k == "restart":
+        props |= {"C03", "C01"}
+    else:
+        props |= {"C01", "C02"}
+    return props
+
+
+def shape_flags(t, r):
+    fl = set()
+    ops = [o["op"] for o in t["ops"]]
+    if "restart" in ops and any(o == "send" for o in ops[ops.index("restart"):]):
+        fl.add("send_after_restart")
+    if "maintain" in ops:
+        fl.add("maintain")
+    if "purge_topic" in ops:
+        fl.add("purge")
+    if t["cfg"].get("dedup"):
+        fl.add("dedup")
+    if t["cfg"]["cache"]:
+        fl.add("cache")
+    if "evict" in ops:
+        fl.add("evict")
+    for (i, op, ic, mc, raw) in r["pairs"]:
+        if op["op"] == "dump" and ic[0] == "dump":
+            segs = ic[4]
+            if len(segs) > 1:
+                fl.add("multi_segment")
+            if any(s[6] is not None and s[6][2] > 0 and s[7] > 0 for s in segs):
+                fl.add("disk_and_buffer")
+            if segs and segs[0][0] > 0:
+                fl.add("retention_removed_prefix")
+        if op["op"] == "poll" and ic[0] == "msgs" and len(ic[2]) > 3:
+            fl.add("multi_message_poll")
+        if ic[0] == "res" and ic[1] == 1:
+            fl.add("topic_full")
+        if op["op"] == "maintain" and ic[0] == "lo" and ic[1] > 0:
+            fl.add("retention_advanced")
+    return fl
+
+
+def check(out, tier, seed, prop):
+    """Runs corpus + generated histories for [prop]; reports monitor rejections (concrete violations) and
+    model/implementation disagreements attributed to [prop]."""
+    rng = util.Rng(seed * 1000003 + int(prop[1:]))
+    n = COUNTS[tier]
+    profiles = PROFILES[prop]
+    traces = corpus() + [gen_trace(rng, "%s-g%d" % (prop, i), profiles[i % len(profiles)]) for i in range(n)]
+    results = run_traces(prop, traces)
+    hist, flags, nontrivial = {}, {}, set()
+    disagreements, rejections, crashes = 0, 0, 0
+    reported = 0
+    for r in results:
+        t = r["trace"]
+        for o in t["ops"]:
+            hist[o["op"]] = hist.get(o["op"], 0) + 1
+        if r["crash"]:
+            crashes += 1
+            if reported < 3:
+                out.violation("crash-%s" % t["id"], {"kind": "impl-crash", "mode": "srv", "trace": t, "detail": str(r["crash"])[-1500:]})
+                reported += 1
+            continue
+        fl = shape_flags(t, r)
+        for f in fl:
+            flags[f] = flags.get(f, 0) + 1
+        if fl:
+            nontrivial.add(util.digest(t["ops"]))
+        mi = r.get("monitor_impl", 0)
+        if mi:
+            i, op, ic, mc, raw = r["pairs"][mi - 1]
+            if prop in attribution(t, i, op):
+                rejections += 1
+                if reported < 3:
+                    out.violation("mon-%s" % t["id"], {"kind": "spec-monitor", "mode": "srv", "trace": t, "rejected_op_index": i, "op": op,
+                                                       "impl_observation": raw, "what": "the partition specification (Model/PartSpec.v mon_step) rejects this observation"})
+                    reported += 1
+                continue
+        if r.get("monitor_model", 0):
+            # the model itself breaks the specification: the refinement theorem cannot hold any more
+            out.violation("model-vs-spec-%s" % t["id"], {"kind": "model-vs-spec", "no_longer_checks": "theorem part_refines (Model/Part.v vs Model/PartSpec.v)",
+                                                         "trace": t, "rejected_model_op": r["monitor_model"] - 1}, no_failing_input=True)
+            continue
+        for (i, op, ic, mc, raw) in r["pairs"]:
+            if ic != mc:
+                if prop in attribution(t, i, op):
+                    disagreements += 1
+                    if reported < 3:
+                        out.violation("corr-%s" % t["id"], {"kind": "correspondence", "no_longer_checks": "corr_%s_part (Model/Part.v vs the storage engine)" % prop,
+                                                            "mode": "srv", "trace": t, "op_index": i, "op": op, "impl": ic, "model": mc},
+                                      no_failing_input=True)
+                        reported += 1
+                break
+    return {
+        "traces_validated_against_impl": len(results), "evaluations": len(results), "distinct_nontrivial": len(nontrivial),
+        "rule": "corpus of minimised witnesses + seeded random histories (profile per property) on the in-process server; every operation's observation compared with Model/Part.v and checked by the spec monitor; non-trivial = reaches a shape flag; distinct by hash of the op list",
+        "op_histogram": hist, "shape_flags": flags, "monitor_rejections": rejections, "model_impl_disagreements": disagreements,
+        "impl_crashes": crashes, "samples": [traces[0]["ops"][2:8], traces[len(corpus())]["ops"][2:10]],
+    }
+
+
+def replay(payload):
+    t = payload["trace"]
+    res = run_traces("replay", [t])
+    r = res[0]
+    print(json.dumps({"crash": r["crash"], "monitor_impl": r.get("monitor_impl"), "monitor_model": r.get("monitor_model")}))
+    for (i, op, ic, mc, raw) in r["pairs"]:
+        if ic != mc:
+            print("first difference at op", i, json.dumps(op))
+            print(" impl ", ic)
+            print(" model", mc)
+            return 1
+    return 1 if r.get("monitor_impl") else 0
